@@ -83,6 +83,29 @@ Proof.
   pose proof (existsb_false_forall (Z.eqb x) t H1 x Hin) as E. now rewrite Z.eqb_refl in E.
 Qed.
 
+(* ---------------------------------------------------------------- the row counter after Database::open *)
+Lemma fold_max_ge : forall l a x, In x l \/ x <= a -> x <= fold_left Z.max l a.
+Proof.
+  induction l as [|h t IH]; intros a x H; cbn [fold_left].
+  - destruct H as [ [] | H ]. exact H.
+  - apply IH. destruct H as [ [<- | H] | H ]; [right; lia | left; exact H | right; lia].
+Qed.
+Lemma fold_max_lt : forall l a b, a < b -> (forall x, In x l -> x < b) -> fold_left Z.max l a < b.
+Proof.
+  induction l as [|h t IH]; intros a b Ha H; cbn [fold_left]; [exact Ha|].
+  apply IH; [pose proof (H h (or_introl eq_refl)); lia | intros x Hx; apply H; now right].
+Qed.
+Lemma max_rid_ge st x : In x (map r_rid (rows st) ++ gone st) -> x <= max_rid st.
+Proof. intros H. unfold max_rid. apply fold_max_ge. now left. Qed.
+Lemma max_rid_lt st e : Inv ty st e -> 0 <= max_rid st < next_rid st.
+Proof.
+  intros Hi. pose proof (inv_rid ty st e Hi). split.
+  - unfold max_rid. apply fold_max_ge. right. lia.
+  - unfold max_rid. apply fold_max_lt; [lia|]. intros x Hx. apply in_app_or in Hx as [Hx|Hx].
+    + apply in_map_iff in Hx as (r & <- & Hr). apply (inv_rids ty st e Hi r Hr).
+    + apply (inv_gone ty st e Hi x Hx).
+Qed.
+
 (* ---------------------------------------------------------------- the induction *)
 Lemma run_ok : forall ops st e,
   Inv ty st e -> dead st = false -> Forall clean_op ops -> NoDup (ins_keys ops) ->
@@ -119,8 +142,12 @@ Proof.
     intros k' Hk' Hin. eapply Hfresh; eauto.
   - (* reopen *)
     cbn [ins_keys] in Hn, Hfresh. unfold step_reopen in Es. injection Es as <- <-. cbn [spec_step].
+    pose proof (max_rid_lt st e Hi) as Hmax. pose proof (max_rid_ge st) as Hge.
     apply IH; auto; cbn [next_rid rows]; [| lia].
-    destruct Hi as [A B C D]. constructor; cbn [rows toast next_rid]; auto. lia.
+    destruct Hi as [A B C D E F]. constructor; cbn [rows toast next_rid gone]; auto; [lia | |].
+    + intros r Hin. specialize (Hge (r_rid r) (in_or_app _ _ _ (or_introl (in_map r_rid _ _ Hin)))).
+      pose proof (E r Hin). lia.
+    + intros x Hin. specialize (Hge x (in_or_app _ _ _ (or_intror Hin))). pose proof (F x Hin). lia.
   - (* SELECT *)
     cbn [ins_keys] in Hn, Hfresh.
     destruct (step_query_ok ty st e st1 ob Hi Es) as [Hs ->]. cbn [spec_step] in Hs |- *. rewrite Hs.
@@ -139,7 +166,7 @@ Proof.
   destruct (existsb utf8_blob_op ops) eqn:Eu; [discriminate|].
   unfold spec_hist, run. rewrite run_from_length, Nat.eqb_refl. cbn [andb].
   apply run_ok.
-  - constructor; cbn; [constructor | constructor | intros ? ? ? [] | lia].
+  - constructor; cbn; [constructor | constructor | intros ? ? ? [] | lia | intros ? [] | intros ? []].
   - reflexivity.
   - apply Forall_forall. intros o Hin. apply clean_of_flags.
     + rewrite forallb_forall in Hok. now apply Hok.
